@@ -16,14 +16,11 @@ cycle Wait → barrier → flusher → inflight → Wait — which is exactly th
 `inflight` INSIDE the barrier) creates: `spin_inside_barrier_deadlocks`.
 -/
 import GoZero.C11.ProofsLive
+import GoZero.C11.ProofsTerm
 import GoZero.C11.ProofsWaitStep
 import GoZero.C11.PropsGuard
+import GoZero.C11.Props
 namespace GoZero.C11
-
-/-- what a goroutine does by itself (callbacks end; API calls, ticks and the clock are the environment) -/
-def internal : Act → Bool
-  | .tau => true | .start => true | .confirm _ => true | .cbEnd _ => true
-  | _ => false
 
 /-- nobody can move by itself -/
 def Stuck (cfg : Cfg) (s : St) : Prop := ∀ (t : Nat) (a : Act), internal a = true → step cfg s t a = none
@@ -263,6 +260,76 @@ theorem at_rest_below_threshold (cfg : Cfg) (s : St) (h : Reachable cfg s) (hl :
 theorem lock_and_barrier_owned (cfg : Cfg) (s : St) (h : Reachable cfg s) :
     cnt lockRegion s = b2n s.lock ∧ cnt barrierHolder s = b2n s.barrier :=
   ⟨(dinv_reachable (cfg := cfg) h).lockOwn, (dinv_reachable (cfg := cfg) h).barOwn⟩
+
+/-! ### no livelock, and progress to rest -/
+
+/-- **no livelock**: every run that consists of internal actions only (no new API call, no tick) is finite, bounded
+by the work the goroutines still have in front of them — for EVERY configuration (no reachability needed), every
+cfg. In particular no goroutine polls for ever while the others move: the protocol has no internal cycle. -/
+theorem internal_runs_are_bounded (cfg : Cfg) (s s' : St) (sched : List (Nat × Act))
+    (hall : ∀ p ∈ sched, internal p.2 = true) (h : run cfg s sched = some s') : sched.length ≤ mu s := by
+  have := mu_run cfg sched s s' hall h; omega
+
+/-- every configuration has a finite internal run to a configuration in which nobody can move by itself -/
+theorem internal_run_to_stuck (cfg : Cfg) (s : St) :
+    ∃ (sched : List (Nat × Act)) (s' : St), (∀ p ∈ sched, internal p.2 = true) ∧ run cfg s sched = some s' ∧ Stuck cfg s' := by
+  generalize hn : mu s = n
+  induction n using Nat.strongRecOn generalizing s with
+  | _ n ih =>
+    by_cases hst : Stuck cfg s
+    · exact ⟨[], s, by simp, rfl, hst⟩
+    · have : ∃ (t : Nat) (a : Act) (s1 : St), internal a = true ∧ step cfg s t a = some s1 := by
+        refine Classical.byContradiction fun hno => hst ?_
+        intro u a ha
+        cases hs : step cfg s u a with
+        | none => rfl
+        | some s1 => exact absurd ⟨u, a, s1, ha, hs⟩ hno
+      obtain ⟨t, a, s1, ha, hs⟩ := this
+      have hlt := mu_step cfg s s1 t a ha hs
+      obtain ⟨sched, s', hall, hr, hst'⟩ := ih (mu s1) (by omega) s1 rfl
+      refine ⟨(t, a) :: sched, s', ?_, ?_, hst'⟩
+      · intro p hp
+        rcases List.mem_cons.mp hp with h | h
+        · rw [h]; exact ha
+        · exact hall p h
+      · simp [run, hs, hr]
+
+/-- **PROGRESS** (fixed code): from every reachable configuration — whatever is in flight: producers at the commander,
+Waits polling or at the barrier, flushers anywhere, callbacks running — there is a FINITE run of internal actions
+(the goroutines' own steps and the ends of the running callbacks; no new call, no tick) to a configuration in which
+nobody can move, and there (given a goroutine slot for every pending `go`): every `Add`, `Flush` and `Wait` HAS
+RETURNED, and every accepted task has been executed exactly once or sits in the container — below the threshold,
+with a flusher waiting for the tick that will flush it. Together with `internal_runs_are_bounded` (every internal run
+is finite) this is liveness under the one assumption that callbacks return. -/
+theorem progress_to_rest (cfg : Cfg) (hfix : cfg.fixed = true) (s : St) (h : Reachable cfg s) :
+    ∃ (sched : List (Nat × Act)) (s' : St), (∀ p ∈ sched, internal p.2 = true) ∧ run cfg s sched = some s' ∧
+      Reachable cfg s' ∧ Stuck cfg s' ∧
+      ((0 < s'.spawn → ∃ (t : Nat) (th : Thread), s'.thr[t]? = some th ∧ th.pc = .idle) →
+        (∀ (t : Nat) (th : Thread), s'.thr[t]? = some th → th.pc = .idle ∨ ∃ c, th.pc = .bSelect c) ∧
+        (∀ x, s'.added.count x = s'.container.count x + s'.finished.count x) ∧
+        (s'.container = [] ∨ (cfg.full s'.container = false ∧
+          ∃ (t : Nat) (th : Thread) (c : Bool), s'.thr[t]? = some th ∧ th.pc = .bSelect c))) := by
+  obtain ⟨sched, s', hall, hr, hst⟩ := internal_run_to_stuck cfg s
+  have hre := reachable_run h sched hr
+  refine ⟨sched, s', hall, hr, hre, hst, fun hslots => ?_⟩
+  have R := stuck_is_rest cfg hfix s' hre hslots hst
+  refine ⟨R.1, fun x => ?_, R.2.2.2.2.2.2.2⟩
+  have hc := no_loss_no_dup cfg s' hre x
+  have h0 : inHands x s' = 0 := by
+    unfold inHands
+    have : ∀ l : List Thread, (∀ th ∈ l, th.reg = []) → (l.map fun th => th.reg.count x).sum = 0 := by
+      intro l hl
+      induction l with
+      | nil => rfl
+      | cons a l ih => simp [hl a (by simp), ih (fun th hth => hl th (by simp [hth]))]
+    apply this
+    intro th hth
+    obtain ⟨t, ht, rfl⟩ := List.getElem_of_mem hth
+    have ht' : s'.thr[t]? = some s'.thr[t] := by simp [ht]
+    refine hands_empty_outside_execution cfg s' hre t _ ht' ?_
+    rcases R.1 t _ ht' with hp | ⟨c, hp⟩ <;> simp [hp, holds]
+  simp [inCommander, R.2.1, h0] at hc
+  exact hc
 
 /-! ### the shape of seeded C11-7 deadlocks: a decided witness -/
 
